@@ -15,6 +15,19 @@ CLAIMED = {
     ),
 }
 
+CLAIMED["C19"] = (
+    "interprocedural mod/ref + read-after-write hazard summaries over access paths (SSA, call graph), flow-sensitive per function",
+    "For every exported arithmetic method z.Op(x,...) of field, tower, point, twisted-Edwards, polynomial and vector types (about 1400 methods per configuration) decides (i) no execution writes receiver memory and later reads an operand at an overlapping access path, except identity copies, and (ii) operands are never written. (i)+(ii) imply that the aliased call computes what the unaliased call computes, given the trusted base. Thorough re-decides it under the purego and arm64 build configurations.",
+    "Trusted: assembly stubs (destination parameter by declared name, inputs loaded before the element is stored), math/big aliasing tolerance, go/ssa as model. Sub-object aliasing (operand pointing inside the receiver) is outside the property. Value correctness of the operations is not decided.",
+    "DESIGN.md section 4 C19",
+)
+CLAIMED["C18"] = (
+    "interprocedural mod/ref summaries (who may write which parameter / global), documented-destination table",
+    "Decides for every exported function and method of the library packages (about 5300) that no pointer/slice/map parameter other than the receiver is written, directly or through callees, unless it is a documented destination listed with a reason. This is the structural necessary condition of 'calling again with the same argument objects returns the same result' and of read-only sharing between goroutines; it found MillerLoopFixedQ scaling the caller's lines (fixed).",
+    "Trusted: assembly stubs write only their destination parameter, std-library summaries (table), VTA call graph for dynamic calls. Absence of data races in general and equality of results are not decided.",
+    "DESIGN.md section 4 C18",
+)
+
 NOT_YET = "check not built yet in this revision of /verif (see DESIGN.md section 4 for the planned structural clauses); the value-level core is not decidable by static analysis"
 
 def main():
